@@ -160,10 +160,10 @@ open NcVerif.Builders NcVerif.BuildersP NcVerif.Retrieve NcVerif.RetrieveP
 /-- A retrieval request that is built is ONE well-formed `<rpc>` which the peer reads back exactly as built — the XPath
     expression (an attribute value), the caller's subtree filter, the with-defaults mode, stream name and times included. -/
 theorem retrieval_request_roundtrip (caps : Caps.Caps) (call : Retrieve.Call) (t : XNode) (mid : Str)
-    (hf : FilterGood (filterOf call)) (h : Retrieve.build caps call = .ok t) :
+    (hf : FilterGood (filterOf call)) (he : ∀ e ∈ elemArgs call, Good e) (h : Retrieve.build caps call = .ok t) :
     parseDoc (serialize (rpcTree "nc:".toList mid t)) = some (rpcTree "nc:".toList mid t) ∧
     attrOf "message-id".toList (rpcTree "nc:".toList mid t) = some mid := by
-  obtain ⟨⟨hw, hnt⟩, _⟩ := RetrieveP.build_ok caps call t hf h
+  obtain ⟨⟨hw, hnt⟩, _⟩ := RetrieveP.build_ok caps call t hf he h
   cases t with
   | text _ => simp [XmlDocP.isText] at hnt
   | elem n a cs => exact XmlDocP.rpc_roundtrip "nc:".toList mid n a cs (Or.inl rfl) hw
@@ -182,6 +182,9 @@ theorem unknown_filter_type_refused (ty : Str) : filterPart (some (.other ty)) =
 example : builtText (Retrieve.build (Caps.mk ["urn:ietf:params:netconf:capability:with-defaults:1.0?basic-mode=explicit&also-supported=report-all,trim".toList])
       (.get (some (.xpath "/a[b=\"x\"]".toList)) (some "trim".toList)))
     = some "<nc:get><nc:filter type=\"xpath\" select=\"/a[b=&quot;x&quot;]\"/><ns0:with-defaults xmlns:ns0=\"urn:ietf:params:xml:ns:yang:ietf-netconf-with-defaults\">trim</ns0:with-defaults></nc:get>".toList := by
+  decide +kernel
+example : builtText (Retrieve.build (Caps.mk []) (.getSchema "mod".toList (some "1.0".toList) none))
+    = some "<ncm:get-schema xmlns:ncm=\"urn:ietf:params:xml:ns:yang:ietf-netconf-monitoring\"><ncm:identifier>mod</ncm:identifier><ncm:version>1.0</ncm:version></ncm:get-schema>".toList := by
   decide +kernel
 example : builtText (Retrieve.build (Caps.mk ["urn:ietf:params:netconf:capability:notification:1.0".toList])
       (.subscribe none (some "NETCONF".toList) (some "t0".toList) (some "t1".toList)))
